@@ -363,7 +363,7 @@ fn std_inline(r: &mut Rng, depth: usize) -> String {
         6 => format!("*{}*", std_words(r)),
         7 => format!("**{}**", std_words(r)),
         8 => r.ps(&["_x y_", "**_a_**", "*__a__*", "***b***", "*a **b** c*"]).to_string(),
-        9 => format!("`{}`", r.ps(&["code", "a b", "a*b_c", "x|y", "<b>", "a``b", "&amp;", " a ", "\\", "grep -E \"a|b\" f", "echo `date", "`tick"])),
+        9 => format!("`{}`", r.ps(&["code", "a b", "a*b_c", "x|y", "<b>", "a``b", "&amp;", " a ", "\\", "grep -E \"a|b\" f", "echo `date", "`tick", "a`", "x``", "echo `date`"])),
         10 => format!("``{}``", r.ps(&["a`b", "`", "x"])),
         11 => format!("[{}]({})", r.ps(&["text", "a *b* c", "`code`", "x y"]), r.ps(&["/u", "http://a.b/c?d=e&f=g", "<a b>", "#frag", "/p(q)", ""])),
         12 => format!("[{}](/u \"{}\")", std_words(r), r.ps(&["t", "a b", "x'y", "q&amp;r"])),
@@ -408,7 +408,12 @@ fn std_block(r: &mut Rng, depth: usize) -> String {
         7 => {
             let f = r.ps(&["```", "~~~", "````"]);
             // sometimes a second content line after a line of white space only (auto-indent residue)
-            let body = if r.chance(1, 3) { format!("{}\n{}\n{}", std_text(r, 4), r.ps(&["  ", "      ", "    ", " ", "\t"]), std_text(r, 4)) } else { std_text(r, 6) };
+            let body = match r.below(6) {
+                0 | 1 => format!("{}\n{}\n{}", std_text(r, 4), r.ps(&["  ", "      ", "    ", " ", "\t"]), std_text(r, 4)),
+                // the last content line is white space only
+                2 => format!("{}\n{}", std_text(r, 4), r.ps(&["  ", "    ", " ", "\t"])),
+                _ => std_text(r, 6),
+            };
             format!("{}{}\n{}\n{}\n", f, r.ps(&["", "rs", "a b"]), body, f)
         }
         8 => format!("    {}\n", std_text(r, 6).trim_start()),
@@ -417,7 +422,14 @@ fn std_block(r: &mut Rng, depth: usize) -> String {
             let cell = |r: &mut Rng| std_inline_seq(r, 1).replace('\n', " ").replace('|', "\\|");
             format!("| {} | {} |\n|---|:-:|\n| {} | {} |\n", cell(r), cell(r), cell(r), cell(r))
         }
-        11 => format!("{}\n", std_par(r)),
+        // (sometimes a paragraph that is only digits and an escaped list delimiter: the escape sits at the end of the text)
+        11 => {
+            if r.chance(1, 4) {
+                format!("{}\\{}\n", r.ps(&["1945", "7", "10", "0", "999999999"]), r.ps(&[".", ")"]))
+            } else {
+                format!("{}\n", std_par(r))
+            }
+        }
         12..=14 => {
             let n = r.range(1, 3);
             let mut s = String::new();
